@@ -402,6 +402,18 @@ func Oracle(rec *syssim.Record, out *sim.Outcome) *simrt.Violation {
 			if inv.T < slotStart(inv.Slot) {
 				return Viol("C03/attest-too-early", "Attest for slot %d ran at %v, before the slot started (%v)", inv.Slot, inv.T, slotStart(inv.Slot))
 			}
+			// "exactly one job per duty slot that has not yet passed": the job stems from an answer that was
+			// obtained before the slot was over (an answer that arrives later sets nothing up for that slot)
+			inTime := false
+			for _, f := range cands {
+				if f.PreGenesis || f.EndT < slotStart(inv.Slot+1) {
+					inTime = true
+				}
+			}
+			if !inTime {
+				return Viol("C03/attest-for-passed-slot", "Attest for slot %d ran at %v, but every duties answer for epoch %d that incarnation %d had by then arrived after that slot had passed (first at %v; the slot ended %v)", inv.Slot, inv.T, e, inc.N, cands[0].EndT, slotStart(inv.Slot+1))
+			}
+			out.Probes["attest-job-from-answer-in-time"]++
 		}
 		epochs := map[uint64]bool{}
 		for _, f := range fetches {
